@@ -105,15 +105,16 @@ TrCmd ==          \* Torrent.Verify() deletes the stored bitfield first
 TrSettled ==      \* allocation / verification of a restarted client settled: the pieces it treats as downloaded
     /\ Ev.ev = "settled"
     /\ LET hv == IF Ev.known THEN SetOf(Ev.have) ELSE {}
-           bad == {p \in hv : disk[p] # "good"}
+           cls == ClassOf(Ev)       \* content of the files read by the parent at this moment
+           bad == {p \in hv : cls[p] # "good"}
        IN Note(IF \E p \in bad : cfg.fo[p] \cap rmiss # {} THEN "C05.missing"
                ELSE IF \E p \in bad : cfg.fo[p] \cap recr # {} THEN "C05.missing.recreated"
                ELSE IF bad # {} THEN "C05.ahead"
                ELSE IF hv \cap dirty # {} THEN "C05.osync"
                ELSE "")
-    /\ phase' = "run" /\ vdone' = Ev.verified
+    /\ phase' = "run" /\ vdone' = Ev.verified /\ disk' = ClassOf(Ev) /\ exist' = ExistOf(Ev)
     /\ l' = l + 1
-    /\ UNCHANGED <<cfg, disk, dirty, exist, aidx, almiss, alexist, wr, memKnown, memBit, dbKnown, dbBit, txn, nosync, seen, rmiss, recr, obsw>>
+    /\ UNCHANGED <<cfg, dirty, aidx, almiss, alexist, wr, memKnown, memBit, dbKnown, dbBit, txn, nosync, seen, rmiss, recr, obsw>>
 
 TrStats ==
     /\ Ev.ev = "stats"
@@ -161,10 +162,16 @@ TrDelete ==       \* data files removed while the client is down (DeleteFiles of
     /\ l' = l + 1
     /\ UNCHANGED <<cfg, dirty, phase, aidx, almiss, alexist, wr, memKnown, memBit, dbKnown, dbBit, txn, nosync, seen, rmiss, recr, vdone, obsw>>
 
+TrPlant ==        \* data files that exist before the torrent is added (stale / partial / truncated / good copies)
+    /\ Ev.ev = "plant" /\ phase = "down"
+    /\ disk' = ClassOf(Ev) /\ exist' = ExistOf(Ev)
+    /\ l' = l + 1
+    /\ UNCHANGED <<cfg, dirty, phase, aidx, almiss, alexist, wr, memKnown, memBit, dbKnown, dbBit, txn, nosync, seen, rmiss, recr, vdone, obsw>>
+
 TraceNext ==
     /\ l <= Len(Trace)
     /\ \/ TrReset \/ TrUp \/ TrOpen \/ TrOsync \/ TrWBegin \/ TrWEnd \/ TrMem \/ TrCmd \/ TrSettled \/ TrStats
-       \/ TrReopenFail \/ TrCrash \/ TrDelete
+       \/ TrReopenFail \/ TrCrash \/ TrDelete \/ TrPlant
 
 TraceSpec == TraceInit /\ [][TraceNext]_tvars
 
